@@ -67,13 +67,18 @@ def main():
                         print('     ', pid, l[:230])
         print('%d refactorings, %d with alarms' % (n, bad))
         return
+    from concurrent.futures import ThreadPoolExecutor
+    jobs = []
     for bid in args:
         src = '/tmp/seed/%s/refactor_out' % bid
         for i in range(1, 9):
             diff = '%s/refactor%d.diff' % (src, i)
-            if not os.path.exists(diff):
-                continue
-            r = check_patch(diff)
+            if os.path.exists(diff):
+                jobs.append((bid, i, src, diff))
+    with ThreadPoolExecutor(8) as ex:
+        results = list(ex.map(lambda j: check_patch(j[3]), jobs))
+    for (bid, i, src, diff), r in zip(jobs, results):
+        if True:
             print('%s-%d' % (bid, i), {k: r.get(k) for k in ('applies', 'tests', 'alarms')})
             for pid, ls in (r.get('alarm_reports') or {}).items():
                 for l in ls[:4]:
